@@ -389,6 +389,37 @@ Definition periodic_rows_local (table_len : nat) (frags : list (nat * nat)) : li
   flat_map (fun c => map (fun i => i mod table_len) (seq 0 (snd c))) frags.
 Definition periodic_rows_serial (table_len n : nat) : list nat := map (fun i => i mod table_len) (seq 0 n).
 
+(* ---------------------------------------------------------------- plain parallel maps (iter!/iter_mut! + for_each/map) *)
+(* iter_mut!(v [, min_len]).enumerate()/zip(..).for_each(|(i, x)| *x = g(i, *x)): one single-cell task per element *)
+Definition par_update_tasks {V} (d : V) (g : nat -> V -> V) (n : nat) : list (task V) :=
+  map (fun i => cell_task [i] i (fun s => g i (nth i s d))) (seq 0 n).
+(* ... |(i, x)| *x = f(i) into a fresh (un-initialised) vector, or iter!(..).map(f).collect() (the read footprint [i] is an
+   over-approximation: the old content is ignored) *)
+Definition par_map_tasks {V} (d : V) (f : nat -> V) (n : nat) : list (task V) := par_update_tasks d (fun i _ => f i) n.
+Definition par_map_serial {V} (f : nat -> V) (n : nat) : list V := map f (seq 0 n).
+
+(* instances (the closure bodies are the parameters; the sequential build runs the SAME closure over a plain iterator):
+   utils::transpose_slice::<T, N>(source): result[i][j] = source[i + j * row_count]            (iter_mut!(result, 1024)) *)
+Definition transpose_slice_row {T} (dt : T) (source : list T) (N row_count i : nat) : list T :=
+  map (fun j => nth (i + j * row_count) source dt) (seq 0 N).
+Definition transpose_slice_tasks {T} (dt : T) (source : list T) (N : nat) : list (task (list T)) :=
+  par_map_tasks [] (transpose_slice_row dt source N (length source / N)) (length source / N).
+(* fri::utils::hash_values::<H, E, N>(values): result[i] = H::hash_elements(values[i])            (iter_mut!(result, 1024)) *)
+Definition hash_values_tasks {R Dg} (dd : Dg) (dr : R) (hash_row : R -> Dg) (values : list R) : list (task Dg) :=
+  par_map_tasks dd (fun i => hash_row (nth i values dr)) (length values).
+(* fri::folding::apply_drp: result[i] = fold(values[i], inv_offsets[i], alpha)                     (iter_mut!(result)) *)
+Definition apply_drp_tasks {R B E} (de : E) (dr : R) (db : B) (fold_row : R -> B -> E) (values : list R) (inv_offsets : list B)
+  : list (task E) :=
+  par_map_tasks de (fun i => fold_row (nth i values dr) (nth i inv_offsets db)) (length values).
+(* evaluation_table::acc_column, boundary branch: acc[i] += value[i] * z[i % z.len()] with the GLOBAL i of enumerate()
+   (iter_mut!(result, 1024).zip(column).enumerate()) *)
+Definition acc_column_boundary_tasks {E} (de : E) (mul_add : E -> E -> nat -> E) (column : list E) (zl : nat) : list (task E) :=
+  par_update_tasks de (fun i acc => mul_add acc (nth i column de) (i mod zl)) (length column).
+(* ColMatrix::{interpolate_columns(_into), evaluate_columns_over, evaluate_columns_at}, composer (DEEP composition: one task per
+   trace / constraint column polynomial), composition poly columns: iter!/iter_mut!(columns) — one task per COLUMN, the cell is the
+   whole column and [col_fn c] the (sequential or itself parallel, separately specified) per-column function *)
+Definition per_column_tasks {C} (dc : C) (col_fn : nat -> C -> C) (ncols : nat) : list (task C) := par_update_tasks dc col_fn ncols.
+
 (* ---------------------------------------------------------------- proof-of-work nonce *)
 Section Nonce.
 Variable leading_zeros : nat -> nat.      (* public_coin.check_leading_zeros(nonce) for the current seed *)
